@@ -230,9 +230,7 @@ class LoopMixin:
         def member(key):
             alts = []
             for p in parts:
-                ek = self.elem_key(p.elem)
-                body = z3.And(zbool(p.guard()), *[a == b for a, b in zip(ek, key)])
-                alts.append(z3.Exists(p.vars, body) if p.vars else body)
+                alts.append(self.solve_part(p, self.elem_key(p.elem), key))
             return z3.Or(*alts) if alts else z3.BoolVal(False)
         arity = len(self.elem_key(parts[0].elem)) if parts else 1
         local_names = sorted(self.assigned_names(node))
